@@ -53,24 +53,75 @@ theorem stepFrom_spec (c : Ctx) (ax : Axis) (t : NodeTest) (preds : Exprs) (n : 
       applyPreds Spec.sem preds c l) := by
   simp [stepFrom, Spec.sem]
 
-/-- **compose_path** — for an evaluator that works per context node (the specification):
-    the nodes selected by `P/R` are the union, in document order, of the nodes `R` selects
-    from each node selected by `P` -/
-theorem compose_path (sem : Sem) (hper : sem.perNode = true) (c : Ctx) (P : Expr) (ax : Axis)
-    (t : NodeTest) (preds : Exprs) {ns : List Nat} (hP : eval sem P c = .ok (.nodes ns)) :
+/-- **compose_path_general** — for an evaluator that works per context node (the
+    specification), with no side condition: the prefix of the node test of `R` is resolved
+    (an unbound prefix is an error of the expression, also when `P` selects nothing), then the
+    nodes selected by `P/R` are the union, in document order, of the nodes `R` selects from each
+    node selected by `P` -/
+theorem compose_path_general (sem : Sem) (hper : sem.perNode = true) (c : Ctx) (P : Expr)
+    (ax : Axis) (t : NodeTest) (preds : Exprs) {ns : List Nat}
+    (hP : eval sem P c = .ok (.nodes ns)) :
     eval sem (.step P ax t preds) c
-      = (concatMapE (stepFrom sem c ax t preds) ns).map (fun r => .nodes (cleanupFwd r)) := by
+      = (do let _ ← NodeTest.apply c.a c.env ax t []
+            (concatMapE (stepFrom sem c ax t preds) ns).map (fun r => .nodes (cleanupFwd r))) := by
   rw [eval, hP]
   simp only [hper, Bool.true_or, if_true, Val.nodes?]
-  show (concatMapE (stepFrom sem c ax t preds) ns >>=
-    fun r => pure (Val.nodes (cleanupFwd r))) = _
-  cases concatMapE (stepFrom sem c ax t preds) ns <;> rfl
+  show (NodeTest.apply c.a c.env ax t [] >>= fun _ =>
+    concatMapE (stepFrom sem c ax t preds) ns >>=
+      fun r => pure (Val.nodes (cleanupFwd r))) = _
+  cases NodeTest.apply c.a c.env ax t [] with
+  | error e => rfl
+  | ok _ => cases concatMapE (stepFrom sem c ax t preds) ns <;> rfl
+
+/-- the resolution of the prefix is part of every `stepFrom`: it only shows when there is no
+    context node -/
+theorem resolve_absorbed (sem : Sem) (c : Ctx) (ax : Axis) (t : NodeTest) (preds : Exprs)
+    {ns : List Nat} (hne : t.bound c.env = true ∨ ns ≠ []) {β : Type}
+    (k : Except Err (List Nat) → Except Err β) (hk : ∀ e, k (.error e) = .error e) :
+    (do let _ ← NodeTest.apply c.a c.env ax t []
+        k (concatMapE (stepFrom sem c ax t preds) ns))
+      = k (concatMapE (stepFrom sem c ax t preds) ns) := by
+  cases hb : t.bound c.env
+  · rcases hne with hb' | hne
+    · rw [hb] at hb'; cases hb'
+    · cases ns with
+      | nil => exact absurd rfl hne
+      | cons n rest =>
+        have e : concatMapE (stepFrom sem c ax t preds) (n :: rest) = .error .unboundPrefix := by
+          simp only [concatMapE, stepFrom, NodeTest.apply_unbound c.a c.env ax hb]
+          rfl
+        rw [e, hk, NodeTest.apply_unbound c.a c.env ax hb]
+        rfl
+  · rw [NodeTest.apply_nil_bound c.a c.env ax hb]
+    rfl
+
+/-- **compose_path** — for an evaluator that works per context node (the specification):
+    the nodes selected by `P/R` are the union, in document order, of the nodes `R` selects
+    from each node selected by `P` (when `P` selects at least one node or the prefix of the
+    node test of `R` is bound; otherwise see `compose_path_unbound`) -/
+theorem compose_path (sem : Sem) (hper : sem.perNode = true) (c : Ctx) (P : Expr) (ax : Axis)
+    (t : NodeTest) (preds : Exprs) {ns : List Nat} (hP : eval sem P c = .ok (.nodes ns))
+    (hne : t.bound c.env = true ∨ ns ≠ []) :
+    eval sem (.step P ax t preds) c
+      = (concatMapE (stepFrom sem c ax t preds) ns).map (fun r => .nodes (cleanupFwd r)) := by
+  rw [compose_path_general sem hper c P ax t preds hP]
+  exact resolve_absorbed sem c ax t preds hne
+    (fun x => x.map (fun r => Val.nodes (cleanupFwd r))) (fun _ => rfl)
+
+/-- with an unbound prefix in the node test of `R`, `P/R` is an error whatever `P` selects -/
+theorem compose_path_unbound (sem : Sem) (hper : sem.perNode = true) (c : Ctx) (P : Expr)
+    (ax : Axis) (t : NodeTest) (preds : Exprs) {ns : List Nat}
+    (hP : eval sem P c = .ok (.nodes ns)) (hb : t.bound c.env = false) :
+    eval sem (.step P ax t preds) c = .error .unboundPrefix := by
+  rw [compose_path_general sem hper c P ax t preds hP, NodeTest.apply_unbound c.a c.env ax hb]
+  rfl
 
 theorem compose_path_spec (c : Ctx) (P : Expr) (ax : Axis) (t : NodeTest) (preds : Exprs)
-    {ns : List Nat} (hP : eval Spec.sem P c = .ok (.nodes ns)) :
+    {ns : List Nat} (hP : eval Spec.sem P c = .ok (.nodes ns))
+    (hne : t.bound c.env = true ∨ ns ≠ []) :
     eval Spec.sem (.step P ax t preds) c
       = (concatMapE (stepFrom Spec.sem c ax t preds) ns).map (fun r => .nodes (cleanupFwd r)) :=
-  compose_path Spec.sem rfl c P ax t preds hP
+  compose_path Spec.sem rfl c P ax t preds hP hne
 
 /-- the predicates of a step do not see the context value of the step -/
 theorem applyPreds_ctx (sem : Sem) : ∀ (ps : Exprs) (c : Ctx) (v : Val) (l : List Nat),
@@ -90,7 +141,8 @@ theorem stepFrom_is_eval (sem : Sem) (hper : sem.perNode = true) (c : Ctx) (ax :
     (t : NodeTest) (preds : Exprs) (n : Nat) :
     eval sem (.step .ctx ax t preds) { c with result := .nodes [n] }
       = (stepFrom sem c ax t preds n).map (fun r => .nodes (cleanupFwd r)) := by
-  rw [compose_path sem hper _ .ctx ax t preds (ns := [n]) (by rw [eval]), concatMapE_single]
+  rw [compose_path sem hper _ .ctx ax t preds (ns := [n]) (by rw [eval]) (.inr (by simp)),
+    concatMapE_single]
   have e : stepFrom sem { c with result := .nodes [n] } ax t preds n
       = stepFrom sem c ax t preds n := by
     simp only [stepFrom, applyPreds_ctx]
@@ -99,29 +151,38 @@ theorem stepFrom_is_eval (sem : Sem) (hper : sem.perNode = true) (c : Ctx) (ax :
 
 /-- **compose_path_model** — the same for the model, up to the listing order: the nodes the
     Go-shaped evaluator selects for `P/R` are the union of the nodes the specification's `R`
-    selects from each node the model selected for `P` -/
+    selects from each node the model selected for `P` (when `P` selects at least one node or
+    the prefix of the node test of `R` is bound; with an unbound prefix and no node both
+    evaluators fail, and the union over no node would be the empty node-set).  Prefixes
+    elsewhere in `P` or in the predicates need not be bound. -/
 theorem compose_path_model (a : Arena) (h : wfb a = true)
     (hsv : ∀ i, i < a.size → Model.strval a i = Spec.strval a i)
     (env : Env) (henv : EnvOk a env) (P : Expr) (ax : Axis) (t : NodeTest) (preds : Exprs)
     (ca : Bool) (hs : sumSafe ca (.step P ax t preds) = true)
-    (hb : prefixesBound env (.step P ax t preds) = true)
     (c : Ctx) (ha : c.a = a) (he : c.env = env) (hok : Val.Ok a c.result)
     (hasc : ca = true → Val.Asc c.result)
-    {ns : List Nat} (hP : eval Model.sem P c = .ok (.nodes ns)) :
+    {ns : List Nat} (hP : eval Model.sem P c = .ok (.nodes ns))
+    (hne : t.bound env = true ∨ ns ≠ []) :
     Res.Equiv (eval Model.sem (.step P ax t preds) c)
       ((concatMapE (stepFrom Spec.semKF c ax t preds) ns).map
         (fun r => .nodes (cleanupFwd r))) := by
   have hc : Ctx.Equiv c c := ⟨rfl, rfl, rfl, rfl, .refl _⟩
   have hasc' : ca = true → Val.Asc c.result ∧ Val.Asc c.result := fun x => ⟨hasc x, hasc x⟩
-  have hsP : sumSafe ca P = true ∧ prefixesBound env P = true := by
-    simp only [sumSafe, prefixesBound, Bool.and_eq_true] at hs hb
-    exact ⟨hs.1, hb.1.1⟩
-  have r1 := exec_refines_spec a h hsv env henv _ ca hs hb c c hc hok hasc' ha he
-  have r2 := exec_refines_spec a h hsv env henv P ca hsP.1 hsP.2 c c hc hok hasc' ha he
+  have hsP : sumSafe ca P = true := by
+    simp only [sumSafe, Bool.and_eq_true] at hs
+    exact hs.1
+  have r1 := exec_refines_spec a h hsv env henv _ ca hs c c hc hok hasc' ha he
+  have r2 := exec_refines_spec a h hsv env henv P ca hsP c c hc hok hasc' ha he
   rw [hP] at r2
   obtain ⟨v, hv, hvv⟩ := ExRel.ok_left r2 rfl
   obtain ⟨ns', rfl, hperm⟩ := hvv.nodes_left
-  rw [compose_path Spec.semKF rfl c P ax t preds hv] at r1
+  have hne' : t.bound c.env = true ∨ ns' ≠ [] := by
+    rcases hne with hb | hne
+    · exact .inl (he ▸ hb)
+    · refine .inr (fun e => hne ?_)
+      subst e
+      exact hperm.eq_nil
+  rw [compose_path Spec.semKF rfl c P ax t preds hv hne'] at r1
   have r3 := concatMapE_perm (stepFrom Spec.semKF c ax t preds) hperm
   refine ExRel.trans (R := Val.Equiv) (S := Val.Equiv) (fun _ _ _ => Val.Equiv.trans) r1 ?_
   revert r3
